@@ -351,6 +351,10 @@ def run(ctx):
         if res["status"] in ("completed", "rejected-up-front"):
             continue
         label = cfg["label"]
+        kwc = cfg.get("kwargs", {})
+        if res["status"] == "population-does-not-terminate" and kwc.get("accumulate_weights") and kwc.get("constant_volume_mode") is False:
+            # one underlying input: weight accumulation with a non-constant-volume (inflated) latent contour
+            label = "std:accumulate_weights=True+constant_volume_mode=False(+any radius option)"
         ctx.violation(f"{res['status']}@{label}", f"{res['status']}: {res['detail']} (model {cfg['model']}, seed {cfg['seed']})", {"cfg": {k: v for k, v in cfg.items() if k != 'kwargs' or True}})
     ctx.set("outcomes", stats)
     ctx.set("distinct_nontrivial", len({c["label"] for c in cs}))
